@@ -30,7 +30,13 @@ def scr (h : Header) (k : String) : Out Acc.Scriptlet :=
   | some (_, a, b, c) => getScriptlet h (a, b, c)
   | none => .err "table"
 
-def dump (m : Metadata) : String :=
+/-- output sizes of the digest algorithms (same table as `C05.digestBytes`; the driver does not import Props) -/
+def digestBytes : Nat → Option Nat
+  | 1 => some 16 | 2 => some 20 | 8 => some 32 | 9 => some 48 | 10 => some 64 | 11 => some 28 | _ => none
+/-- the algorithms the code supports, each with its REAL hex length: what the spec judges file digests by -/
+def standardHexLen : List (Nat × Nat) := fileDigestHexLen.map fun p => (p.1, 2 * (digestBytes p.1).getD 0)
+
+def dump (m : Metadata) (tbl : List (Nat × Nat) := fileDigestHexLen) : String :=
   let h := m.header
   let dep (a b c : Nat) := rdeps (getDependencies h a b c)
   sep " " [
@@ -73,7 +79,7 @@ def dump (m : Metadata) : String :=
       | .ok v => "ok:" ++ RpmVerif.Driver.stringOfCodePoints (v.map UInt8.toNat) | _ => "err"),
     "paths=" ++ (match getFilePaths h with | .ok v => "ok:[" ++ sep ";" (v.map hx) ++ "]" | _ => "err"),
     "fdalgo=" ++ rn (getFileDigestAlgorithm h),
-    "files=" ++ (match getFileEntries m.signature h with
+    "files=" ++ (match getFileEntries m.signature h tbl with
       | .ok v => "ok:[" ++ sep ";" (v.map fun f =>
           let dg := match f.digest with | some (a, d) => s!"{a}:{hx d}" | none => "~"
           let cp := match f.caps with | some c => hx c | none => "~"
@@ -94,8 +100,11 @@ def handle (_op : String) (args : List String) (impl : String) : String :=
       | .ok (m, _) =>
         let d := dump m
         -- the model is proved to return what the header stores (Props/C05); a differing accessor
-        -- result of the implementation is therefore a property failure, not only a broken tie
-        let v := if impl == d then "holds" else if impl == "parse-err" then "dontcare" else "fails:accessor-differs"
+        -- result of the implementation is therefore a property failure, not only a broken tie.
+        -- File digests are judged with the algorithms' real sizes, not with the lengths scraped from the code.
+        let dSpec := dump m standardHexLen
+        let v := if impl == dSpec then "holds" else if impl == "parse-err" then "dontcare"
+          else if impl == d then "fails:file-digest-length" else "fails:accessor-differs"
         answer d v s!"hdr{min m.header.entries.length 9 / 3}-files{match getFileEntries m.signature m.header with | .ok l => s!"ok{min l.length 2}" | _ => "err"}"
       | o => answer (if o.isPanic then "panic" else "parse-err") (if impl == "parse-err" then "dontcare" else "fails:accepted-what-model-rejects") "rejected"
   | _ => badReq "args"
